@@ -64,6 +64,7 @@ def run(rep, tier):
         rep.call(validators.crop_u32, rep, prog, "C03.crop-validate-u32")
         rep.call(validators.constructors_validate, rep, prog, "C03.invariants")
         rep.call(validators.unchecked_crop, rep, prog, "C03.unchecked-crop")
+        rep.call(index_rules.unchecked_sites, rep, prog, "C03.unchecked-sites")
         rep.call(index_rules.nearest_index, rep, prog, "C03.index-nearest")
         rep.call(index_rules.cropped_row_slices, rep, prog, "C03.index-rows")
         rep.call(index_rules.table_index, rep, prog, "C03.table-index")
